@@ -164,6 +164,27 @@ def _simplify(repo: Repo, stmts: List[ast.stmt], notes: List[str]) -> List[ast.s
     """Fold constant branches, unroll loops over literal lists, drop change-hook plumbing (getattr/callable/callback)."""
     out: List[ast.stmt] = []
     hooks = set()
+    # locals bound once in this block to a constant (`index = 3` after the option's fields were written in) are read as the constant
+    stores: Dict[str, int] = {}
+    for st in stmts:
+        for n in ast.walk(st):
+            if isinstance(n, ast.Name) and isinstance(n.ctx, (ast.Store, ast.Del)):
+                stores[n.id] = stores.get(n.id, 0) + 1
+    cenv: Dict[str, ast.expr] = {}
+    for st in stmts:
+        if isinstance(st, ast.Assign) and len(st.targets) == 1 and isinstance(st.targets[0], ast.Name) and stores.get(st.targets[0].id) == 1 \
+                and all(isinstance(n, _CONST_NODES) for n in ast.walk(st.value)):
+            try:
+                cv = _const_test(repo, st.value)
+                if isinstance(cv, int) and not isinstance(cv, bool):
+                    cenv[st.targets[0].id] = ast.Constant(value=cv)
+            except Exception:
+                pass
+    if cenv:
+        stmts = [_Rename(dict(cenv)).visit(copy.deepcopy(st)) for st in stmts
+                 if not (isinstance(st, ast.Assign) and len(st.targets) == 1 and isinstance(st.targets[0], ast.Name) and st.targets[0].id in cenv)]
+        for st in stmts:
+            ast.fix_missing_locations(st)
     for st in stmts:
         if isinstance(st, ast.If):
             if isinstance(st.test, ast.Call) and norm(st.test.func) == "callable":
@@ -275,8 +296,11 @@ def _loops_over_options(fn: ast.FunctionDef) -> List[ast.For]:
 def _bytemap_var(loop: ast.For) -> Optional[str]:
     """The list the loop indexes with `<option>.byte`."""
     ov = loop.target.id
+    from ..packed import once_defs, resolve_names
+    ldefs = once_defs(loop.body)          # `index = option.byte; cells[index] |= bits`
     for n in ast.walk(loop):
-        if isinstance(n, ast.Subscript) and norm(n.slice) == f"{ov}.byte" and isinstance(n.value, ast.Name):
+        if isinstance(n, ast.Subscript) and isinstance(n.value, ast.Name) and not isinstance(n.slice, ast.Slice) \
+                and norm(resolve_names(n.slice, ldefs)) == f"{ov}.byte":
             return n.value.id
     return None
 
@@ -466,6 +490,7 @@ def record_length(repo: Repo, rep, P: str):
     # (a) the record length: L = max(L, option.byte + 1) inside the loop, L = 0 before it
     length_var = None
     verdict = None
+    _ldefs = packed.once_defs(wloop.body) if wloop is not None else {}
     for n in (ast.walk(wloop) if wloop is not None else []):
         if isinstance(n, ast.Assign) and len(n.targets) == 1 and isinstance(n.targets[0], ast.Name) and isinstance(n.value, ast.Call) \
                 and norm(n.value.func) == "max" and len(n.value.args) == 2:
@@ -474,7 +499,7 @@ def record_length(repo: Repo, rep, P: str):
             if len(others) == 1 and any(norm(a) == v for a in n.value.args):
                 length_var = v
                 try:
-                    p = alg.to_poly(others[0], lambda e: alg.Poly.sym("byte") if norm(e) == f"{ovar}.byte" else None)
+                    p = alg.to_poly(packed.resolve_names(others[0], _ldefs), lambda e: alg.Poly.sym("byte") if norm(e) == f"{ovar}.byte" else None)
                     verdict = (p == alg.Poly.sym("byte") + 1, norm(n))
                 except alg.NotAlgebraic:
                     verdict = (None, norm(n))
@@ -490,6 +515,8 @@ def record_length(repo: Repo, rep, P: str):
                         return alg.Poly.sym("byte")
                     if isinstance(e, ast.Name) and e.id == v:
                         return alg.Poly.sym("L")
+                    if isinstance(e, ast.Name) and e.id in _ldefs and e.id != v:
+                        return alg.to_poly(_ldefs[e.id], lf)          # index = option.byte
                     return None
                 try:
                     newv = alg.to_poly(n.body[0].value, lf)
